@@ -5,12 +5,14 @@ Import C38.
 Open Scope N_scope.
 
 (* For every list of concurrent calls (resolve / insert / get_signed_packet) and
-   EVERY schedule of their atomic steps: if the run contains the acknowledgement
+   EVERY schedule of their atomic steps, including every choice of parking lookups INSIDE
+   their cache lock scopes (where the locked steps of all other tasks are disabled and
+   queue up behind the mutex): if the run contains the acknowledgement
    `true` of the publish of p, and later the answer a of a lookup for p's key
    whose first step comes after that acknowledgement, then a is the answer of a
    published packet q for that key that is not older than p. *)
 Theorem C38_no_stale_after_ack : forall tasks sched l1 l2 l3 j p i k nm a,
-  combine (full_sched tasks sched) (model (tasks, sched)) =
+  model (tasks, sched) =
     l1 ++ (j, ODoneP true) :: l2 ++ (i, ODoneR a) :: l3 ->
   nth_error tasks j = Some (TPublish p) ->
   nth_error tasks i = Some (TResolve k nm) ->
@@ -25,7 +27,7 @@ Print Assumptions C38_no_stale_after_ack.
 Theorem C38_monitor_sound : forall tasks sched os,
   monitor (tasks, sched) os = true ->
   forall l1 l2 l3 j p i k nm a,
-    combine (full_sched tasks sched) os = l1 ++ (j, ODoneP true) :: l2 ++ (i, ODoneR a) :: l3 ->
+    os = l1 ++ (j, ODoneP true) :: l2 ++ (i, ODoneR a) :: l3 ->
     nth_error tasks j = Some (TPublish p) ->
     nth_error tasks i = Some (TResolve k nm) ->
     pkey p = k ->
@@ -38,6 +40,17 @@ Print Assumptions C38_monitor_sound.
 Theorem C38_model_satisfies_monitor : forall i, monitor i (model i) = true.
 Proof. exact fixed_monitor. Qed.
 Print Assumptions C38_model_satisfies_monitor.
+
+(* Enabledness: while task j is parked inside a cache lock scope, the step of another task i
+   that takes the cache lock (resolve's cache check and cache fill, insert's invalidation) is
+   disabled: store, cache and program counters are untouched, the observation is OBlocked and
+   i is appended to the mutex queue (it runs when j leaves the scope, see C38.wake). *)
+Theorem C38_locked_step_disabled : forall fx tasks x i hold j,
+  holder x = Some j -> i <> j -> live tasks (base x) i = true ->
+  existsb (Nat.eqb i) (waiters x) = false -> needs_lock tasks (base x) i = true ->
+  xstep fx tasks x (i, hold) = (mkX (base x) (Some j) (waiters x ++ [i]), [(i, OBlocked)]).
+Proof. exact locked_step_disabled. Qed.
+Print Assumptions C38_locked_step_disabled.
 
 (* The code before the fix (cache fill not guarded by the invalidation count)
    violates the property: resolve reads p1, publish of p2 commits, invalidates and
